@@ -50,6 +50,31 @@ TAIL_SPRT = """Definition gen_sprt_tail (ro : bool) (ph : Xq * list Xq) : Xq * l
   (if ro then fst ph else xlast (snd ph), snd ph).          (* sprt.alpha_mart(x); return (p if random_order else p_history[-1], p_history) *)
 """
 
+# Assorter.overstatement, line for line (booleans: what the four conditions read from the two records)
+TAIL_OVERSTATEMENT = """Definition gen_overstatement_tail (use_style mvr_phantom mvr_has cvr_has cvr_pool cvr_phantom : bool)
+    (tally_pool_means : option (list (Z * Xq))) (cvr_tally_pool : Z) (assort_mvr assort_cvr : Q) : res Xq :=
+  if use_style && negb cvr_has then Raise EValue else                                     (* if use_style and not cvr.has_contest(..): raise ValueError *)
+  let mvr_assort := if mvr_phantom || (use_style && negb mvr_has) then 0 else assort_mvr in   (* mvr_assort = 0 if mvr.phantom or (use_style and not mvr.has_contest(..)) else self.assort(mvr) *)
+  match (if cvr_pool then tally_pool_means else None) with                                  (* cvr.pool and self.tally_pool_means is not None *)
+  | Some ms => match lookup cvr_tally_pool ms with
+               | Some m => Ok (xsub m (Fin mvr_assort))                                     (* self.tally_pool_means[cvr.tally_pool]; return cvr_assort - mvr_assort *)
+               | None => Raise EKey
+               end
+  | None => Ok (Fin (b2q cvr_phantom / 2 + (1 - b2q cvr_phantom) * assort_cvr - mvr_assort))   (* int(cvr.phantom)/2 + (1 - int(cvr.phantom)) * self.assort(cvr) *)
+  end.
+"""
+# Assorter.mean: the style filter, then np.mean of the assorter values of the cards that pass
+TAIL_AMEAN = """Definition gen_amean_tail (A : card -> Q) (cid : Z) (cvr_list : list card) (use_style : bool) : Xq :=
+  let filtr := if use_style then (fun c => has_contest cid c) else (fun _ => true) in      (* the two lambdas *)
+  np_mean (map A (filter filtr cvr_list)).                                                (* np.mean([self.assort(c) for c in cvr_list if filtr(c)]) *)
+"""
+# Assertion.set_margin_from_cvrs: (self.margin, self.test.u) for a finite mean; NotImplementedError is outside (atype has three values)
+TAIL_SMC = """Definition gen_smc_tail (t : atype) (amean ua : Q) : Q * Q :=
+  let margin := gen_smc_margin amean in                                                   (* self.margin = 2 * amean - 1 *)
+  (margin, match t with Polling => gen_smc_u_polling ua | _ => gen_smc_u_comparison margin ua end).
+"""
+HEADERS = {"audit_skeletons": "From SV Require Import Compare.\n"}     # names a group's generated definitions need
+
 TARGETS = {
     "nnm": [
         dict(name="lam_to_eta", file="shangrla/core/NonnegMean.py", func="NonnegMean.lam_to_eta",
@@ -222,6 +247,46 @@ TARGETS = {
              args=["tw", "valid", "cards", "f"], params={"valid": "valid"},
              atoms={"tally[self.winner]": "tw", "self.contest.cards": "cards", "self.contest.share_to_win": "f"},
              result="self.margin", mentions=["share_to_win"], locals=["q", "p"]),
+    ],
+    # shangrla/core/Audit.py, comparison-audit scoring: every statement of each function exact or translated
+    "audit_skeletons": [
+        dict(name="overstatement", kind="skeleton", file="shangrla/core/Audit.py", func="Assorter.overstatement",
+             skeleton=[("text", "if use_style and (not cvr.has_contest(self.contest.id)):\n    raise ValueError(f'use_style==True but cvr={cvr!r} does not contain contest {self.contest.id}')"),
+                       ("text", "mvr_assort = 0 if mvr.phantom or (use_style and (not mvr.has_contest(self.contest.id))) else self.assort(mvr)"),
+                       ("text", "cvr_assort = self.tally_pool_means[cvr.tally_pool] if cvr.pool and self.tally_pool_means is not None else int(cvr.phantom) / 2 + (1 - int(cvr.phantom)) * self.assort(cvr)"),
+                       ("text", "return cvr_assort - mvr_assort")],
+             tail=TAIL_OVERSTATEMENT),
+        dict(name="oa", kind="skeleton", file="shangrla/core/Audit.py", func="Assertion.overstatement_assorter",
+             skeleton=[("ret_expr", "out", ["omega", "ua", "v"],
+                        {"self.assorter.overstatement(mvr, cvr, use_style)": "omega", "self.assorter.upper_bound": "ua",
+                         "self.margin": "v"})]),
+        dict(name="oa_margin", kind="skeleton", file="shangrla/core/Audit.py", func="Assertion.overstatement_assorter_margin",
+             skeleton=[("ret_expr", "out", ["error_rate_1", "error_rate_2", "ua", "v"],
+                        {"self.assorter.upper_bound": "ua", "self.margin": "v"})]),
+        dict(name="oa_mean", kind="skeleton", file="shangrla/core/Audit.py", func="Assertion.overstatement_assorter_mean",
+             skeleton=[("ret_expr", "out", ["error_rate_1", "error_rate_2", "ua", "v"],
+                        {"self.assorter.upper_bound": "ua", "self.margin": "v"})]),
+        dict(name="make_overstatement", file="shangrla/core/Audit.py", func="Assertion.make_overstatement",
+             args=["overs", "ua", "v"], params={"overs": "overs"},
+             atoms={"self.assorter.upper_bound": "ua", "self.margin": "v"}),
+        dict(name="amean", kind="skeleton", file="shangrla/core/Audit.py", func="Assorter.mean",
+             skeleton=[("text", "if use_style:\n    filtr = lambda c: c.has_contest(self.contest.id)\nelse:\n    filtr = lambda c: True"),
+                       ("text", "return np.mean([self.assort(c) for c in cvr_list if filtr(c)])")],
+             tail=TAIL_AMEAN),
+        dict(name="smc", kind="skeleton", file="shangrla/core/Audit.py", func="Assertion.set_margin_from_cvrs",
+             skeleton=[("raise_guard",), ("text", "stratum = next(iter(audit.strata.values()))"),
+                       ("text", "use_style = stratum.use_style"),
+                       ("text", "amean = self.assorter.mean(cvr_list, use_style=use_style)"), ("warn_guard",),
+                       ("expr", "self.margin", "margin", ["amean"], {}),
+                       ("if", "self.contest.audit_type == Audit.AUDIT_TYPE.POLLING"),
+                       ("expr", "self.test.u", "u_polling", ["ua"], {"self.assorter.upper_bound": "ua"}),
+                       ("else",),
+                       ("if", "self.contest.audit_type in [Audit.AUDIT_TYPE.CARD_COMPARISON, Audit.AUDIT_TYPE.ONEAUDIT]"),
+                       ("expr", "self.test.u", "u_comparison", ["v", "ua"], {"self.margin": "v", "self.assorter.upper_bound": "ua"}),
+                       ("else",),
+                       ("text", "raise NotImplementedError(f'audit type {self.contest.audit_type} not supported')"),
+                       ("endif",), ("endif",)],
+             tail=TAIL_SMC),
     ],
     "raire": [
         dict(name="bp_estimate", file="shangrla/raire/sample_estimator.py", func="bp_estimate",
@@ -415,7 +480,19 @@ def translate_skeleton(target, fn):
         return items[pos]
     for sk in target["skeleton"]:
         kind = sk[0]
-        if kind in ("with", "endwith", "for", "endfor"):
+        if kind == "if":      # if <test text>: ... [else: ...]  -- opened in place; an elif is an `if` inside the else part
+            it = cur()
+            st = it[1] if it[0] == "stmt" else None
+            if not (isinstance(st, ast.If) and ast.unparse(st.test) == sk[1]):
+                raise TranslationError(f"{target['func']}: expected `if {sk[1]}:`, found `{ast.unparse(st)[:100] if st is not None else it}`")
+            items[pos:pos + 1] = [("if", sk[1])] + flatten(st.body) + ([("else",)] + flatten(st.orelse) if st.orelse else []) + [("endif",)]
+            pos += 1
+        elif kind in ("else", "endif"):
+            it = cur()
+            if it[0] != kind:
+                raise TranslationError(f"{target['func']}: expected {kind}, found {it[0]} {ast.unparse(it[1])[:80] if it[0] == 'stmt' else ''}")
+            pos += 1
+        elif kind in ("with", "endwith", "for", "endfor"):
             it = cur()
             if it[0] != kind or (kind in ("with", "for") and it[1] != sk[1]):
                 raise TranslationError(f"{target['func']}: expected {sk}, found {it[0]} {ast.unparse(it[1])[:80] if it[0] == 'stmt' else (it[1:] or '')}")
@@ -555,7 +632,8 @@ def regenerate(pid, group, res):
     n_obl = len(re.findall(r"^\s*(?:Theorem|Lemma)\s", open(proofs_src).read(), re.M))
     res.extra_obligations += n_obl
     try:
-        text = "From SV Require Import Xq NNM.\nOpen Scope Q_scope.\n\n" + "\n".join(translate(t) for t in TARGETS[group])
+        text = "From SV Require Import Xq NNM.\n" + HEADERS.get(group, "") + "Open Scope Q_scope.\n\n" + \
+            "\n".join(translate(t) for t in TARGETS[group])
     except (TranslationError, OSError, SyntaxError) as e:
         res.proof_breaks.append({"what": f"translator (fail-closed) rejected the current source for group {group}", "output": str(e)})
         return None
